@@ -176,13 +176,60 @@ let parse_call (c : string) : (n * bool) * call =
      | x -> failwith ("bad call " ^ x))
   | _ -> failwith ("bad call " ^ c)
 
-let op_script (a : string array) : string =
+let script_results (a : string array) =
   let n = int_of_string a.(0) in
   let msgs = List.init n (fun i -> unhex a.(1 + i)) in
   let calls = if Array.length a > 1 + n then a.(1 + n) else "" in
   let cs = List.filter (fun s -> s <> "") (String.split_on_char ',' calls) in
-  let rs = run_script (world_init msgs) (List.map parse_call cs) in
+  let parsed = List.map parse_call cs in
+  (msgs, parsed, run_script (world_init msgs) parsed)
+
+let op_script (a : string array) : string =
+  let (_, _, rs) = script_results a in
   String.concat ";" (List.map pres_sobs rs)
+
+(* abstract linear-pass reader (Spec/LinearPass.v) run next to the model, single-reader scripts *)
+let paout (o : aout) : string =
+  match o with
+  | AItem (it, sec) -> Printf.sprintf "item(%d,%d,%d,%d,%s,%d,%d)" (ni it.a_start) (ni it.a_type_off) (ni it.a_type) (ni it.a_class)
+                         (nstr it.a_ttl) (ni it.a_rdlen) (ni sec)
+  | AOk -> "ok" | ANum x -> "num(" ^ nstr x ^ ")" | AErrDone -> "done"
+  | AErrOffsetUnknown s -> Printf.sprintf "unknown(%d)" (ni s) | AErrBadQuestions k -> Printf.sprintf "badq(%d)" (ni k)
+  | AErrAny -> "err" | AUnspecified -> "unspec"
+
+let spec_script (a : string array) : string option =
+  if a.(0) <> "1" then None else
+  let (msgs, parsed, rs) = script_results a in
+  match linear_of (List.hd msgs) with
+  | None -> Some "nolinear"
+  | Some l ->
+    let rec go st calls results seen_header acc =
+      match calls, results with
+      | ((_, cond), cl) :: cs, r :: rr ->
+        let skipped = (match r with Ok SSkipped -> true | _ -> false) in
+        if skipped then go st cs rr seen_header ("-" :: acc) else
+        let ac = (match cl with
+            | CHeader -> None
+            | CSeek s -> Some (ASeek s) | CQCount -> Some AQCount | CRCount -> Some ARCount | CRCountIn s -> Some (ARCountIn s)
+            | CQuestion -> Some (AQuestion (true, false)) | CQuestionRef -> Some (AQuestion (false, false))
+            | CTheQuestion -> Some (AQuestion (true, true)) | CTheQuestionRef -> Some (AQuestion (false, true))
+            | CSkipQuestions -> Some ASkipQuestions
+            | CMarker | CHeaderRef -> Some (AG1 false) | CHeaderN _ -> Some (AG1 true)
+            | CSkipData _ | CDataBytes _ | COptOrSkip _ | COpt _ -> Some AG2
+            | CData (_, _) -> Some (AG2typed (match r with Ok _ -> true | _ -> false))
+            | _ -> None) in
+        (match cl, ac with
+         | CHeader, _ ->
+           if seen_header then List.rev ("unspec" :: acc) else go st cs rr true ("hdr" :: acc)
+         | _, None -> go st cs rr seen_header ("-" :: acc)     (* random access / borrowed-name ops: not part of the pass *)
+         | _, Some c ->
+           if not seen_header then List.rev ("unspec" :: acc) else
+           let (st', o) = astep l st c in
+           (match o with
+            | AUnspecified -> List.rev ("unspec" :: acc)
+            | _ -> go st' cs rr seen_header (paout o :: acc)))
+      | _, _ -> List.rev acc in
+    Some (String.concat ";" (go a_init parsed rs false []))
 
 let op_iter (msg : byte list) : string =
   match iter_new msg with
@@ -308,6 +355,7 @@ let dispatch (op : string) (a : string array) : string =
 let spec (op : string) (a : string array) : string option =
   match op with
   | "name" -> Some (spec_name_line (unhex a.(0)) (int_of_string a.(1)))
+  | "script" -> spec_script a
   | "query" ->
     let s = unhex a.(1) in
     Some (Printf.sprintf "valid %d" (if valid_text s then 1 else 0))
